@@ -119,3 +119,17 @@ def range_expr(it):
 
 def pow2(k):
     return 1 << k
+
+
+def ok_members(t):
+    """non-error members of a Result-valued return term (drops `?` residuals and Err(..) values)"""
+    if isinstance(t, tuple) and t and t[0] == "phi":
+        ms = []
+        for m in t[2]:
+            ms += ok_members(m)
+        return ms
+    if isinstance(t, tuple) and t and t[0] == "err":
+        return []
+    if isinstance(t, tuple) and t and t[0] == "call" and len(t) == 5 and t[2].endswith("from_residual"):
+        return []
+    return [t]
